@@ -12,23 +12,19 @@ import ast
 from harness.extract import Fail, parse, find, src, coq_list, qstr, strip_doc
 
 
-PURE_CALLS = {'len', 'str', 'repr', 'float', 'int', 'round', 'sorted', 'list', 'tuple', 'sum', 'min', 'max'}
-
-
 def is_logging(stmt):
-    """a logging / print statement none of whose arguments can have an effect (calls other than the pure formatters
-    above keep the statement in the skeleton)"""
+    """a logging / print statement whose arguments contain no call, walrus, yield or await at all (names, attributes,
+    subscripts, constants and f-strings of those): anything else stays in the skeleton"""
     if isinstance(stmt, ast.Expr) and isinstance(stmt.value, ast.Call):
         f = stmt.value.func
-        while isinstance(f, ast.Attribute):
-            f = f.value
-        if not (isinstance(f, ast.Name) and f.id in ('logger', 'logging', 'print')):
+        if not (isinstance(f, ast.Attribute) and isinstance(f.value, ast.Name) and f.value.id in ('logger', 'logging')
+                and f.attr in ('debug', 'info', 'warning', 'error', 'critical', 'exception')) and \
+                not (isinstance(f, ast.Name) and f.id == 'print'):
             return False
         for a in list(stmt.value.args) + [k.value for k in stmt.value.keywords]:
             for n in ast.walk(a):
-                if isinstance(n, ast.Call) and not (isinstance(n.func, ast.Name) and n.func.id in PURE_CALLS):
-                    return False
-                if isinstance(n, (ast.NamedExpr, ast.Yield, ast.YieldFrom, ast.Await)):
+                if isinstance(n, (ast.Call, ast.NamedExpr, ast.Yield, ast.YieldFrom, ast.Await, ast.BinOp)) and \
+                        not (isinstance(n, ast.BinOp) and isinstance(n.op, (ast.Add, ast.Mod))):
                     return False
         return True
     return False
@@ -113,10 +109,10 @@ def args_of(fn):
 
 def fn_skeleton(tree, cls, name):
     scope = find(tree, ast.ClassDef, cls) if cls else tree
-    fn = None
-    for n in scope.body:
-        if isinstance(n, ast.FunctionDef) and n.name == name:
-            fn = n
+    fns_ = [n for n in scope.body if isinstance(n, ast.FunctionDef) and n.name == name]
+    if len(fns_) > 1:
+        raise Fail(f'{cls + "." if cls else ""}{name} defined {len(fns_)} times')
+    fn = fns_[0] if fns_ else None
     if fn is None:
         raise Fail(f'{cls + "." if cls else ""}{name} not found')
     head = f'{cls + "." if cls else ""}{name}({args_of(fn)})'
@@ -125,27 +121,51 @@ def fn_skeleton(tree, cls, name):
 
 
 def class_shape(tree, cls):
-    """bases, decorators, metaclass and the sorted member names of a class: a new method (`__setattr__`), another base
-    class or a class decorator changes behaviour without touching any pinned function body"""
-    c = find(tree, ast.ClassDef, cls)
-    members = sorted({n.name for n in c.body if isinstance(n, (ast.FunctionDef, ast.AsyncFunctionDef, ast.ClassDef))} |
-                     {t.id for n in c.body if isinstance(n, ast.Assign) for t in n.targets if isinstance(t, ast.Name)} |
-                     {n.target.id for n in c.body if isinstance(n, ast.AnnAssign) and isinstance(n.target, ast.Name)})
+    """bases, decorators, metaclass and the BODY of a class in order: the names of its methods and nested classes and
+    every other statement (class attributes, conditional definitions, arithmetic on counters). A name defined twice in
+    the class, or a class defined twice in the module, fails the extraction"""
+    found = [n for n in ast.walk(tree) if isinstance(n, ast.ClassDef) and n.name == cls]
+    if len(found) != 1:
+        raise Fail(f'class {cls} defined {len(found)} times')
+    c = found[0]
+    names = [n.name for n in c.body if isinstance(n, (ast.FunctionDef, ast.AsyncFunctionDef, ast.ClassDef))]
+    if len(names) != len(set(names)):
+        raise Fail(f'class {cls}: a member is defined twice')
     kw = ', '.join(f'{k.arg}={src(k.value)}' for k in c.keywords)
-    return [f'class {cls}({", ".join(src(b) for b in c.bases)}{", " + kw if kw else ""})'
-            + ''.join(' @' + src(d) for d in c.decorator_list) + ' members: ' + ' '.join(members)]
+    out = [f'class {cls}({", ".join(src(b) for b in c.bases)}{", " + kw if kw else ""})'
+           + ''.join(' @' + src(d) for d in c.decorator_list)]
+    for n in strip_doc(c.body):
+        if isinstance(n, (ast.FunctionDef, ast.AsyncFunctionDef)):
+            out.append(f'{cls}: def {n.name}' + ''.join(' @' + src(d) for d in n.decorator_list))
+        elif isinstance(n, ast.ClassDef):
+            out.append(f'{cls}: class {n.name}')
+        elif is_logging(n) or isinstance(n, ast.Pass):
+            continue
+        else:
+            out.extend(f'{cls}: ' + x.split('| ', 1)[1] for x in skeleton([n], 0))
+    return out
 
 
 def module_statements(tree):
     """everything at module level that is not a def, a class or a docstring: imports (aliasing), constants,
     rebinding of attributes (`ResourcePool.run_one_tick = f`), decorator registrations"""
     out = []
+    top = [n.name for n in tree.body if isinstance(n, (ast.FunctionDef, ast.AsyncFunctionDef, ast.ClassDef))]
+    if len(top) != len(set(top)):
+        raise Fail('a module-level name is defined twice')
     for n in strip_doc(tree.body):
-        if isinstance(n, (ast.FunctionDef, ast.AsyncFunctionDef, ast.ClassDef)) or is_logging(n):
+        if isinstance(n, (ast.FunctionDef, ast.AsyncFunctionDef)):
+            out.append(f'module: def {n.name}' + ''.join(' @' + src(d) for d in n.decorator_list))
+            continue
+        if isinstance(n, ast.ClassDef):
+            out.append(f'module: class {n.name}')
+            continue
+        if is_logging(n):
             continue
         if isinstance(n, ast.Assign) and isinstance(n.value, ast.Constant) and isinstance(n.value.value, str) \
                 and len(n.value.value) > 400:
-            out.append(f'module: {src(n.targets[0])} = <{len(n.value.value)}-character string>')   # the scheduler template
+            out.append(f'module: {src(n.targets[0])} = <string of {len(n.value.value)} characters, lines follow>')
+            out.extend('template: ' + ln for ln in n.value.value.splitlines() if ln.strip())   # the scheduler template
             continue
         out.extend('module: ' + x.split('| ', 1)[1] for x in skeleton([n], 0))
     return out
@@ -248,4 +268,39 @@ SPEC = [
      (), False),
 ]
 
+def whole_module_item(rels):
+    """small glue modules (package __init__ files, constants, the Priority enum): every statement, class bodies included"""
+    def item():
+        out = []
+        for rel in rels:
+            tree = parse(rel)
+            out.append(f'file: {rel}')
+            out += module_statements(tree)
+            for n in tree.body:
+                if isinstance(n, ast.ClassDef):
+                    out += class_shape(tree, n.name)
+                    for m in n.body:
+                        if isinstance(m, ast.FunctionDef):
+                            out += fn_skeleton(tree, n.name, m.name)
+                elif isinstance(n, ast.FunctionDef):
+                    out += fn_skeleton(tree, None, n.name)
+        return 'list string', coq_list([qstr(s) + '%string' for s in chunked(out)])
+    return item
+
+
+SCHED_FULL = [
+    ('sched_naive_full', 'eudoxia/scheduler/naive.py', ['naive_pipeline_init', 'naive_pipeline']),
+    ('sched_priority_full', 'eudoxia/scheduler/priority.py',
+     ['init_priority_scheduler', 'get_pool_with_max_avail_ram', 'priority_scheduler']),
+    ('sched_ppool_full', 'eudoxia/scheduler/priority_pool.py', ['init_priority_pool_scheduler', 'priority_pool_scheduler']),
+    ('sched_overbook_full', 'eudoxia/scheduler/overbook.py',
+     ['overbook_init', 'overbook_scheduler', 'update_state', 'try_make_assignment', 'make_assignments', 'only']),
+    ('sched_rest_full', 'eudoxia/scheduler/rest.py', ['rest_init', 'rest_scheduler', '_parse_suspensions', '_parse_assignments']),
+]
+
 ITEMS = [(name, src_item(rel, fns, classes, consts)) for name, rel, fns, classes, consts in SPEC]
+ITEMS += [(name, src_item(rel, [(None, f) for f in fns], (), False)) for name, rel, fns in SCHED_FULL]
+ITEMS += [('glue_modules', whole_module_item(['eudoxia/__init__.py', 'eudoxia/executor/__init__.py',
+                                              'eudoxia/scheduler/__init__.py', 'eudoxia/utils/__init__.py',
+                                              'eudoxia/workload/__init__.py', 'eudoxia/utils/consts.py',
+                                              'eudoxia/utils/utils.py']))]
